@@ -1821,7 +1821,79 @@ def stage_mc_automaton(work, tier, seed):
             "maxstates": maxstates, "samples": [dict(table=c["id"], grammar=c["grammar"]) for c in cases[:1]]}
 
 
-STAGES = {"mc_automaton": stage_mc_automaton, "mci_glr": stage_mci_glr, "ast": stage_ast, "codegen": stage_codegen, "builder": stage_builder, "determinism": stage_determinism, "regen": stage_regen, "pipeline": stage_pipeline, "lex": stage_lex, "resolve": stage_resolve, "prec": stage_prec, "tables": stage_tables, "lr": stage_lr, "mci_lr": stage_mci_lr, "glr": stage_glr}
+
+SET_ALPHABET = [["parser_algo", "glr"], ["parser_algo", "lr"], ["table_type", "lalr"], ["table_type", "pager"],
+                ["table_type", "rn"], ["prefer_shifts", True], ["prefer_shifts_over_empty", False],
+                ["most_specific", False], ["longest_match", False], ["grammar_order", True], ["grammar_order", False],
+                ["partial_parse", True], ["skip_ws", False], ["generator_table_type", "arrays"],
+                ["builder_type", "generic"], ["builder_type", "default"], ["builder_loc_info", True], ["force", True],
+                ["force", False], ["actions_in_source_tree", True]]
+
+
+def stage_settings(work, tier, seed):
+    """Settings call sequences on the real API (fresh processes) vs Settings.tla."""
+    import re as _re
+    import subprocess
+    from concurrent.futures import ThreadPoolExecutor
+    rng = random.Random(seed * 41 + 9)
+    base = os.path.dirname(work.path("settings", "x", "y"))
+    grammars = {"plain": (DET_GRAMMARS["list"], False), "layout": (DET_GRAMMARS["layout"], True)}
+    jobs = []
+    n = 120 if tier == "quick" else 800
+    for i in range(n):
+        calls = [rng.choice(SET_ALPHABET) for _ in range(rng.randint(1, 5))]
+        jobs.append((i, "plain" if i % 4 else "layout", calls))
+
+    def one(job):
+        i, gname, calls = job
+        d = os.path.join(base, "s%d" % i)
+        os.makedirs(d, exist_ok=True)
+        gp = os.path.join(d, "g.rustemo")
+        open(gp, "w").write(grammars[gname][0])
+        rq = os.path.join(d, "req.json")
+        json.dump({"grammar_path": gp, "out_dir": os.path.join(d, "out"), "calls": calls,
+                   "result_path": os.path.join(d, "res.json")}, open(rq, "w"))
+        try:
+            subprocess.run([run.vhist_bin(), "api-seq", rq], capture_output=True, text=True, env=run.clean_env(), timeout=120)
+            res = json.load(open(os.path.join(d, "res.json")))
+        except Exception:
+            res = {"outcome": "crash"}
+        obs = {"algo": "", "lm": False, "go": False, "partial": False, "skip_ws": False, "gen": "", "builder": ""}
+        pf = os.path.join(d, "out", "g.rs")
+        if res["outcome"] == "ok" and os.path.exists(pf):
+            t = open(pf).read()
+            obs["algo"] = "glr" if "GlrParser::new" in t else "lr"
+            m = _re.search(r"fn longest_match\(\) -> bool \{\s*(true|false)", t)
+            obs["lm"] = bool(m and m.group(1) == "true")
+            m = _re.search(r"fn grammar_order\(\) -> bool \{\s*(true|false)", t)
+            obs["go"] = bool(m and m.group(1) == "true")
+            m = _re.search(r"StringLexer::new\(\s*(true|false)", t)
+            obs["skip_ws"] = bool(m and m.group(1) == "true")
+            if obs["algo"] == "glr":
+                m = _re.search(r"GlrParser::new\(\s*&PARSER_DEFINITION,\s*(true|false)", t)
+            else:
+                m = _re.search(r"LRParser::new\(\s*&PARSER_DEFINITION,\s*State::default\(\),\s*(true|false)", t)
+            obs["partial"] = bool(m and m.group(1) == "true")
+            obs["gen"] = "functions" if "type ActionFn" in t else "arrays"
+            obs["builder"] = "default" if "pub struct DefaultBuilder" in t else "generic"
+        return {"id": "set:%d" % i, "calls": calls, "has_layout": grammars[gname][1], "outcome": res["outcome"], "obs": obs}
+    with ThreadPoolExecutor(max_workers=run.NCPU) as ex:
+        recs = list(ex.map(one, jobs))
+    rp = work.path("settings", "recs.ndjson")
+    with open(rp, "w") as f:
+        for r in recs:
+            f.write(json.dumps(r) + "\n")
+    r = run.run_tlc(work, "CheckSettings", "CheckSettings.cfg", {"RECS": rp})
+    mc = run.run_tlc(work, "MC_Settings", "MC_Settings.cfg", {}, workers=4)
+    calls_of = {x["id"]: x["calls"] for x in recs}
+    return {"verdicts": [], "divergences": ["Settings model differs: %s calls=%s %s" % (v["id"], calls_of[v["id"]], v["div"])
+                                            for v in r["verdicts"] if v["div"]][:20],
+            "states": r["distinct"] + mc["distinct"], "transitions": r["states"] + mc["states"],
+            "ncases": len(recs), "ntraces": len(recs),
+            "samples": [dict(calls=x["calls"], outcome=x["outcome"], observed=x["obs"]) for x in recs[:2]]}
+
+
+STAGES = {"settings": stage_settings, "mc_automaton": stage_mc_automaton, "mci_glr": stage_mci_glr, "ast": stage_ast, "codegen": stage_codegen, "builder": stage_builder, "determinism": stage_determinism, "regen": stage_regen, "pipeline": stage_pipeline, "lex": stage_lex, "resolve": stage_resolve, "prec": stage_prec, "tables": stage_tables, "lr": stage_lr, "mci_lr": stage_mci_lr, "glr": stage_glr}
 
 
 # ---------------------------------------------------------------------------
